@@ -1,13 +1,14 @@
 import Mqtt
 
-partial def loop (h : IO.FS.Stream) (out : IO.FS.Stream) : IO Unit := do
+partial def loop (debug : Bool) (h : IO.FS.Stream) (out : IO.FS.Stream) : IO Unit := do
   let line ← h.getLine
   if line.isEmpty then return ()
-  if line.trimAscii.toString.isEmpty then loop h out else
-  out.putStrLn (Mqtt.Driver.step line)
-  loop h out
+  if line.trimAscii.toString.isEmpty then loop debug h out else
+  out.putStrLn (Mqtt.Driver.step debug line)
+  loop debug h out
 
-def main : IO Unit := do
+/-- `mqttmodel [--debug]`: `--debug` = model the build with debug assertions on. -/
+def main (args : List String) : IO Unit := do
   let stdin ← IO.getStdin
   let stdout ← IO.getStdout
-  loop stdin stdout
+  loop (args.contains "--debug") stdin stdout
